@@ -3,6 +3,7 @@
 package tlsx
 
 import (
+	"net"
 	"crypto/ed25519"
 	"crypto/rand"
 	"crypto/tls"
@@ -52,8 +53,16 @@ func Pool() *x509.CertPool { initCA(); return pool }
 func Leaf(pad int, client bool, names ...string) tls.Certificate {
 	initCA()
 	key := ""
+	var dnsNames []string
+	var ips []net.IP
 	for _, n := range names {
 		key += n + ","
+		// a name that is an IP literal becomes an IP subject alternative name
+		if ip := net.ParseIP(n); ip != nil {
+			ips = append(ips, ip)
+		} else {
+			dnsNames = append(dnsNames, n)
+		}
 	}
 	key += string(rune('0'+pad%10)) + big.NewInt(int64(pad)).String()
 	if client {
@@ -68,7 +77,7 @@ func Leaf(pad int, client bool, names ...string) tls.Certificate {
 	_, k, _ := ed25519.GenerateKey(rand.Reader)
 	tmpl := &x509.Certificate{SerialNumber: big.NewInt(100 + serial), Subject: pkix.Name{CommonName: "leaf"},
 		NotBefore: time.Now().Add(-time.Hour), NotAfter: time.Now().Add(24 * 365 * time.Hour),
-		KeyUsage: x509.KeyUsageDigitalSignature, DNSNames: names,
+		KeyUsage: x509.KeyUsageDigitalSignature, DNSNames: dnsNames, IPAddresses: ips,
 		ExtKeyUsage: []x509.ExtKeyUsage{x509.ExtKeyUsageServerAuth, x509.ExtKeyUsageClientAuth}}
 	if pad > 0 {
 		tmpl.ExtraExtensions = []pkix.Extension{{Id: []int{1, 3, 6, 1, 4, 1, 55555, 1}, Value: make([]byte, pad)}}
